@@ -108,6 +108,9 @@ type Alt struct {
 	Perm     int    `json:"perm"`     // 0 = canonical order of YAML / CLI entries, else seed of a permutation
 	EmptyCLI bool   `json:"emptycli"` // additionally pass every list option not delivered on the command line as an EMPTY parameter (types=, exclude_fields= ...): empty means "not given"
 	Msgs     []Msg  `json:"msgs"`     // empty = the run's own messages
+	// YamlStyle: another legitimate spelling of the same YAML document: "" (block lists of quoted scalars), "flow"
+	// (flow sequences), "alias" (a list entry that occurs in several lists is anchored once and aliased afterwards)
+	YamlStyle string `json:"yamlstyle"`
 }
 
 // Cfg is the abstract configuration.
@@ -143,6 +146,8 @@ type Cfg struct {
 	// Alts are alternative renderings of the SAME run (same request paths): other channel assignments (C16),
 	// permuted entry orders or plain repetitions (C14), permuted declaration orders (C15, Msgs non-empty).
 	Alts []Alt `json:"alts"`
+	// YamlStyle of this rendering (set from the alternative being rendered)
+	YamlStyle string `json:"yamlstyle"`
 	// Raw overrides for C16 failure cases: "" | noconfig | missingfile | malformed | notypes
 	Fault string `json:"fault"`
 }
